@@ -329,6 +329,59 @@ pub const SLOW_REVERSE_LEN: usize = 4099;
 /// slow-reader sub-matrix: every payload is written like this
 pub const SLOW_CHUNK: Chunk = Chunk::K16Paced;
 
+/// Odd-target-host sub-matrix ("odd target host next to a bystander"): one client, one server, one
+/// SOCKS / HTTP entry point. Local connection X (the bystander) goes through the entry point to the
+/// ordinary target and exchanges the first half of its payloads; then local connection Y asks the
+/// same entry point for a target whose HOST is `TcpCase::odd` (port `ODD_PORT`); then X exchanges
+/// the second halves and is closed in order; then a new local connection Z to the ordinary target
+/// exchanges a payload and is closed in order. What every violation key of it contains:
+pub const ODD_KEY: &str = "odd-target-host";
+/// the port of the odd target (discard; nothing is expected to listen wherever the host may lead)
+pub const ODD_PORT: u16 = 9;
+/// the entry points at which a local application names the target host itself
+pub const ODD_ENTRIES: [Entry; 3] = [Entry::Socks5Domain, Entry::Socks4a, Entry::HttpConnect];
+/// payload length per direction of the bystander X (two halves) and of the later connection Z
+pub const ODD_LEN: usize = 4099;
+/// close order (of X and of Z), chunking and connections field of the sub-matrix
+pub const ODD_ORDER: Order = Order::ClientHalf;
+pub const ODD_CHUNK: Chunk = Chunk::One;
+
+/// The alphabet of odd hosts, enumerated completely: (octets, what it is).
+pub fn odd_hosts() -> Vec<(Vec<u8>, &'static str)> {
+    vec![
+        (b"[".to_vec(), "an opening bracket and nothing else"),
+        (vec![0x5b, 0xc3, 0xa9], "an opening bracket and one two-octet UTF-8 character"),
+        (b"]".to_vec(), "a closing bracket and nothing else"),
+        (b"[]".to_vec(), "empty brackets"),
+        (b"[::1".to_vec(), "an IPv6 literal whose closing bracket is missing"),
+        (b"[[::1]]".to_vec(), "an IPv6 literal in two pairs of brackets"),
+        (b"a b".to_vec(), "a name with a space in it"),
+        (b".".to_vec(), "a single dot"),
+        (vec![b'a'; 255], "255 x 'a' (one label, longer than any DNS label)"),
+        (vec![0xff], "one octet that is not UTF-8"),
+        (Vec::new(), "the empty host"),
+    ]
+}
+
+/// Can a local application name this host at this entry point at all? SOCKS5: any 0..=255 octets.
+/// SOCKS4a: NUL-terminated (the octet that is not UTF-8 is left to SOCKS5). HTTP CONNECT: the
+/// authority is one token of the request line (no space; the non-UTF-8 octet is left out as well).
+pub fn odd_expressible(entry: Entry, host: &[u8]) -> bool {
+    match entry {
+        Entry::Socks5Domain => host.len() <= 255,
+        Entry::Socks4a => !host.contains(&0) && host != [0xff],
+        Entry::HttpConnect => !host.iter().any(|b| *b == b' ' || *b == b'\r' || *b == b'\n' || *b == 0) && host != [0xff],
+        _ => false,
+    }
+}
+
+fn unhex(t: &str) -> Option<Vec<u8>> {
+    if t.len() % 2 != 0 || !t.is_ascii() {
+        return None;
+    }
+    (0..t.len()).step_by(2).map(|i| u8::from_str_radix(&t[i..i + 2], 16).ok()).collect()
+}
+
 #[derive(Clone, Debug, PartialEq, Eq, Hash)]
 pub struct TcpCase {
     pub entry: Entry,
@@ -341,6 +394,8 @@ pub struct TcpCase {
     pub dual: Option<Dual>,
     /// Some: a point of the slow-reader sub-matrix (one end does not read for a while)
     pub slow: Option<Slow>,
+    /// Some: a point of the odd-target-host sub-matrix (the octets of the odd host)
+    pub odd: Option<Vec<u8>>,
 }
 
 impl TcpCase {
@@ -365,6 +420,12 @@ impl TcpCase {
                 SlowDir::Download => "every local connection waits slow_reader_stall_s seconds after the entry point granted the request before its first read, then reads to the end; the target writes its payload at once",
                 SlowDir::Upload => "every target connection waits slow_reader_stall_s seconds after it was accepted before its first read, then reads to the end; the local client writes its payload at once",
             });
+        }
+        if let Some(h) = &self.odd {
+            v["odd_target_host_hex"] = json!(vcommon::report::hex(h));
+            v["odd_target_host_lossy"] = json!(String::from_utf8_lossy(h));
+            v["odd_target_port"] = json!(ODD_PORT);
+            v["odd_target_host_rule"] = json!("one client, one server, one entry point. Local connection X goes through the entry point to the ordinary target (which listens) and exchanges the first halves of the payloads (c2t_len / t2c_len octets per direction, cut in the middle); then local connection Y asks the same entry point for the host odd_target_host_hex, port odd_target_port: Y must get a failure reply or be closed before the deadline; then X exchanges the second halves, half-closes, sees the target's EOF: every octet equal end to end; then a new local connection Z to the ordinary target exchanges payload(len, 1, dir) and is closed the same way");
         }
         if self.chunk == Chunk::WithRequest {
             v["with_request_bytes"] = json!(self.with_request_head());
@@ -391,9 +452,14 @@ impl TcpCase {
             Some(d) => Some(Slow { dir: SlowDir::parse(d)?, stall_s: v["slow_reader_stall_s"].as_u64()? }),
             None => None,
         };
+        let odd = match v.get("odd_target_host_hex").and_then(Value::as_str) {
+            Some(h) => Some(unhex(h)?),
+            None => None,
+        };
         Some(Self {
             dual,
             slow,
+            odd,
             entry: Entry::parse(v["entry"].as_str()?)?,
             c2t: usize::try_from(v["c2t_len"].as_u64()?).ok()?,
             t2c: usize::try_from(v["t2c_len"].as_u64()?).ok()?,
@@ -405,6 +471,7 @@ impl TcpCase {
     pub fn label(&self) -> String {
         let dual = self.dual.map_or_else(String::new, |d| format!(" dual-stack-name {} target-on {}", d.name.host(), d.listen.name()));
         let slow = self.slow.map_or_else(String::new, |s| format!(" slow-reader-{} stall={}s", s.dir.name(), s.stall_s));
+        let slow = self.odd.as_ref().map_or(slow, |h| format!(" {ODD_KEY} {:?} (hex {}) port {ODD_PORT} next to a bystander", String::from_utf8_lossy(&h[..h.len().min(24)]), vcommon::report::hex(h)));
         format!("tcp {}{dual}{slow} c2t={} t2c={} {} {} x{}", self.entry.name(), self.c2t, self.t2c, self.chunk.name(), self.order.name(), self.conc)
     }
     /// The deadline of one execution: slow-reader scenarios get the stall and `SLOW_TRANSFER_S`
@@ -419,6 +486,10 @@ impl TcpCase {
     /// Is this a point of the with-request sub-matrix as `c01.rs::with_request_matrix` builds them?
     fn with_request_well_formed(&self) -> bool {
         self.chunk != Chunk::WithRequest || (WITH_REQUEST_ENTRIES.contains(&self.entry) && WITH_REQUEST_ORDERS.contains(&self.order) && self.c2t > 0 && self.dual.is_none() && self.slow.is_none())
+    }
+    /// Is this a point of the odd-target-host sub-matrix as `c01.rs::odd_matrix` builds them?
+    fn odd_well_formed(&self) -> bool {
+        self.odd.as_ref().is_none_or(|h| ODD_ENTRIES.contains(&self.entry) && odd_expressible(self.entry, h) && self.order == ODD_ORDER && self.chunk == ODD_CHUNK && self.conc == 1 && self.dual.is_none() && self.slow.is_none() && self.c2t >= 2 && self.t2c >= 2)
     }
     /// Is this a point of the slow-reader sub-matrix as `c01.rs::slow_matrix` builds them?
     fn slow_well_formed(&self) -> bool {
@@ -487,6 +558,12 @@ pub struct TcpStats {
     /// (0 / 0: no slow-reader scenario yet)
     pub slow_reader_written_at_first_read_min: u64,
     pub slow_reader_written_at_first_read_max: u64,
+    /// odd-target-host sub-matrix: scenarios whose bystander X went through both halves and its close, every octet equal
+    pub odd_bystander_completed: u64,
+    /// ... whose later connection Z was granted, exchanged its payload and was closed in order
+    pub odd_later_connection_worked: u64,
+    /// ... how the request for the odd host ended (recorded, not judged beyond "not left hanging")
+    pub odd_request_ends: std::collections::BTreeMap<String, u64>,
 }
 
 pub struct TcpOutcome {
@@ -987,6 +1064,9 @@ async fn dual_control(name: &str, port: u16, listeners: &[TcpListener]) -> Resul
 /// Run one matrix point once. `deadline_s` bounds the whole scenario (every wait inside it).
 pub async fn run_tcp(mode: &Mode<'_>, case: &TcpCase, deadline_s: u64, uniq: u64) -> TcpOutcome {
     let t0 = Instant::now();
+    if case.odd.is_some() {
+        return run_odd(mode, case, deadline_s, t0).await;
+    }
     let deadline = t0 + Duration::from_secs(deadline_s);
     let mut failures: Vec<Failure> = Vec::new();
     let mut stats = TcpStats::default();
@@ -1396,6 +1476,291 @@ pub async fn run_tcp(mode: &Mode<'_>, case: &TcpCase, deadline_s: u64, uniq: u64
     if case.dual.is_some() {
         obs["control"] = control_obs;
     }
+    TcpOutcome { obs, failures, port_race, stats, wall: t0.elapsed(), vacuous: None }
+}
+
+// ---------------------------------------------------------------------------------------
+// odd-target-host sub-matrix
+// ---------------------------------------------------------------------------------------
+
+/// Why a step of the odd-target-host choreography did not complete.
+enum StepFail {
+    /// not before the scenario deadline
+    Deadline,
+    /// definitively (what happened)
+    Broken(String),
+}
+
+async fn by<T>(deadline: Instant, f: impl std::future::Future<Output = T>) -> Result<T, StepFail> {
+    tokio::time::timeout_at(deadline.into(), f).await.map_err(|_| StepFail::Deadline)
+}
+
+/// Both ends write `c` / `t` (far below any socket buffer), then both read exactly what the other wrote.
+async fn odd_exchange(cio: &mut BoxIo, tio: &mut TcpStream, c: &[u8], t: &[u8], deadline: Instant) -> Result<(), StepFail> {
+    let io = |who: &str, what: &str, e: std::io::Error| StepFail::Broken(format!("{who}: {what} failed with {:?}", e.kind()));
+    by(deadline, cio.write_all(c)).await?.map_err(|e| io("local connection", "writing", e))?;
+    by(deadline, cio.flush()).await?.map_err(|e| io("local connection", "writing", e))?;
+    by(deadline, tio.write_all(t)).await?.map_err(|e| io("target connection", "writing", e))?;
+    let mut got_t = vec![0u8; c.len()];
+    by(deadline, tio.read_exact(&mut got_t)).await?.map_err(|e| StepFail::Broken(format!("target connection: the stream ended with {:?} before the {} octets the local connection had written were there", e.kind(), c.len())))?;
+    let mut got_c = vec![0u8; t.len()];
+    by(deadline, cio.read_exact(&mut got_c)).await?.map_err(|e| StepFail::Broken(format!("local connection: the stream ended with {:?} before the {} octets the target had written were there", e.kind(), t.len())))?;
+    if got_t != c {
+        let (cl, d) = classify(&got_t, c);
+        return Err(StepFail::Broken(format!("target connection received other octets than the local connection wrote ({cl}: {d})")));
+    }
+    if got_c != t {
+        let (cl, d) = classify(&got_c, t);
+        return Err(StepFail::Broken(format!("local connection received other octets than the target wrote ({cl}: {d})")));
+    }
+    Ok(())
+}
+
+/// The local connection half-closes, the target must see a true EOF; the target half-closes, the
+/// local connection must see the end (EOF; a reset after both directions are finished is recorded elsewhere, not judged).
+async fn odd_close(cio: &mut BoxIo, tio: &mut TcpStream, deadline: Instant) -> Result<(), StepFail> {
+    by(deadline, cio.shutdown()).await?.map_err(|e| StepFail::Broken(format!("local connection: the half-close failed with {:?}", e.kind())))?;
+    let mut b = [0u8; 16];
+    match by(deadline, tio.read(&mut b)).await? {
+        Ok(0) => {}
+        Ok(n) => return Err(StepFail::Broken(format!("target connection received {n} octet(s) more than the local connection wrote"))),
+        Err(e) => return Err(StepFail::Broken(format!("target connection: the local connection's half-close arrived as {:?} instead of EOF", e.kind()))),
+    }
+    by(deadline, tio.shutdown()).await?.map_err(|e| StepFail::Broken(format!("target connection: the half-close failed with {:?}", e.kind())))?;
+    match by(deadline, cio.read(&mut b)).await? {
+        Ok(0) | Err(_) => Ok(()),
+        Ok(n) => Err(StepFail::Broken(format!("local connection received {n} octet(s) more than the target wrote"))),
+    }
+}
+
+/// The handshake of an ordinary connection (to `domain`:`port`) at one of `ODD_ENTRIES`.
+async fn odd_shake_ordinary(entry: Entry, io: &mut BoxIo, domain: &str, port: u16) -> Shake {
+    match entry {
+        Entry::Socks5Domain => proto::socks5_connect(io, IpAddr::V4(Ipv4Addr::LOCALHOST), port, Some(domain)).await,
+        Entry::Socks4a => proto::socks4_connect(io, Ipv4Addr::LOCALHOST, port, Some(domain)).await,
+        _ => proto::http_connect(io, &format!("{domain}:{port}")).await,
+    }
+}
+
+/// Open one ordinary connection through the entry point and accept it at the target.
+/// Err((what, failure)): `what` says which step.
+async fn odd_open(entry: Entry, ep: SocketAddr, domain: &str, listener: &TcpListener, client_done: &AtomicBool, deadline: Instant) -> Result<(BoxIo, TcpStream), (String, StepFail)> {
+    let port = listener.local_addr().expect("target addr").port();
+    let mut io: BoxIo = match env::connect_tcp_entry(ep, client_done, deadline).await {
+        Ok(s) => Box::new(s),
+        Err(ConnectFail::ClientExited) => return Err(("the penguin client had ended when the entry point was connected to".into(), StepFail::Broken("client ended".into()))),
+        Err(ConnectFail::Deadline(e)) => return Err((format!("the {} entry point could not be connected to ({e})", entry.name()), StepFail::Deadline)),
+    };
+    match by(deadline, odd_shake_ordinary(entry, &mut io, domain, port)).await {
+        Err(f) => return Err((format!("the {} handshake for the ordinary target {domain}:{port} got no complete answer", entry.name()), f)),
+        Ok(Shake::Granted) => {}
+        Ok(other) => return Err((format!("the {} entry point did not grant the request for the ordinary target {domain}:{port} (which listens)", entry.name()), StepFail::Broken(format!("{other:?}")))),
+    }
+    match by(deadline, listener.accept()).await {
+        Err(f) => Err(("the request was granted but the ordinary target was never connected to".into(), f)),
+        Ok(Err(e)) => Err(("accept at the target".into(), StepFail::Broken(format!("{:?}", e.kind())))),
+        Ok(Ok((s, _))) => {
+            let _ = s.set_nodelay(true);
+            Ok((io, s))
+        }
+    }
+}
+
+/// One point of the odd-target-host sub-matrix (see `ODD_KEY`).
+async fn run_odd(mode: &Mode<'_>, case: &TcpCase, deadline_s: u64, t0: Instant) -> TcpOutcome {
+    let deadline = t0 + Duration::from_secs(deadline_s);
+    let lab = case.label();
+    let machinery = |m: String| TcpOutcome { failures: vec![Failure { key: "machinery".into(), desc: m, deadline: false }], obs: json!({"machinery": true}), port_race: false, stats: TcpStats::default(), wall: t0.elapsed(), vacuous: None };
+    let (Mode::Penguin(envr), Some(host), true) = (mode, case.odd.as_ref(), case.odd_well_formed()) else {
+        return machinery(format!("{lab}: not a point of the matrix"));
+    };
+    let entry = case.entry;
+    let en = entry.name();
+    let listener = match TcpListener::bind("127.0.0.1:0").await {
+        Ok(l) => l,
+        Err(e) => return machinery(format!("bind target: {e}")),
+    };
+    let lease = env::lease_port(false);
+    let ep = SocketAddr::from(([127, 0, 0, 1], lease.port));
+    let spec = if entry == Entry::HttpConnect { format!("127.0.0.1:{}:http", lease.port) } else { format!("127.0.0.1:{}:socks", lease.port) };
+    let mut tunnel = match env::start_tunnel(envr, &[spec]).await {
+        Ok(t) => t,
+        Err(e) => return machinery(e),
+    };
+    let client_done = tunnel.client_done.clone();
+    let domain = envr.domain.clone();
+    let host_text = format!("{:?} (hex {}, {} octets)", String::from_utf8_lossy(&host[..host.len().min(24)]), vcommon::report::hex(host), host.len());
+
+    let mut failures: Vec<Failure> = Vec::new();
+    let mut stats = TcpStats::default();
+    let (c_pay, t_pay) = (payload(case.c2t, 0, 0), payload(case.t2c, 0, 1));
+    let (c_cut, t_cut) = (case.c2t / 2, case.t2c / 2);
+    let mut x_state: &str;
+    let mut y_state = "not-started".to_string();
+    let mut z_state = "not-started";
+    // a failure that shows late in a scenario that took most of its deadline may be the load of the
+    // machine (the subject's own 30 s channel timeout is not far): it is confirmed alone like a deadline hit
+    let late = |t0: Instant| t0.elapsed() > Duration::from_secs(deadline_s) / 2;
+    let ended = |what: &str, f: &StepFail| match f {
+        StepFail::Deadline => format!("{what}: not within {deadline_s} s"),
+        StepFail::Broken(m) => format!("{what}: {m}"),
+    };
+
+    'scenario: {
+        // ---- X: the bystander, first halves
+        let (mut xc, mut xt) = match odd_open(entry, ep, &domain, &listener, &client_done, deadline).await {
+            Ok(p) => p,
+            Err((what, f)) => {
+                x_state = "not-established";
+                if !client_done.load(Ordering::SeqCst) {
+                    failures.push(Failure { key: format!("tcp.{ODD_KEY}.before-the-odd-request.{en}"), desc: format!("{lab}: the first local connection (before anything odd was asked for) could not be made: {}", ended(&what, &f)), deadline: matches!(f, StepFail::Deadline) || late(t0) });
+                }
+                break 'scenario;
+            }
+        };
+        if let Err(f) = odd_exchange(&mut xc, &mut xt, &c_pay[..c_cut], &t_pay[..t_cut], deadline).await {
+            x_state = "first-half-failed";
+            failures.push(Failure { key: format!("tcp.{ODD_KEY}.before-the-odd-request.{en}"), desc: format!("{lab}: the first local connection (before anything odd was asked for) did not carry the first halves of the payloads: {}", ended("first halves", &f)), deadline: matches!(f, StepFail::Deadline) || late(t0) });
+            break 'scenario;
+        }
+        x_state = "first-half-done";
+
+        // ---- Y: the request for the odd host
+        let y_io: Result<BoxIo, ConnectFail> = env::connect_tcp_entry(ep, &client_done, deadline).await.map(|s| Box::new(s) as BoxIo);
+        let mut y_hang: Option<String> = None;
+        match y_io {
+            Err(ConnectFail::ClientExited) => y_state = "client-ended".into(),
+            Err(ConnectFail::Deadline(e)) => {
+                y_state = "entry-unreachable".into();
+                failures.push(Failure { key: format!("tcp.entry.unreachable.{ODD_KEY}.{en}"), desc: format!("{lab}: with local connection X open, a second local connection could not connect to the {en} entry point within {deadline_s} s ({e})"), deadline: true });
+            }
+            Ok(mut yio) => {
+                let shake = by(deadline, async {
+                    match entry {
+                        Entry::Socks5Domain => proto::socks5_connect_raw_domain(&mut yio, host, ODD_PORT).await,
+                        Entry::Socks4a => proto::socks4a_connect_raw(&mut yio, host, ODD_PORT).await,
+                        _ => {
+                            let mut a = host.clone();
+                            a.extend_from_slice(format!(":{ODD_PORT}").as_bytes());
+                            proto::http_connect_raw(&mut yio, &a).await
+                        }
+                    }
+                })
+                .await;
+                match shake {
+                    Err(_) => {
+                        y_state = "no-answer".into();
+                        y_hang = Some(format!("the {en} request got no complete answer and the connection was not closed"));
+                    }
+                    Ok(Shake::Refused(m)) => y_state = format!("failure-reply ({m})"),
+                    Ok(Shake::Closed(_)) => y_state = "closed-before-a-reply".into(),
+                    Ok(Shake::Malformed(m)) => y_state = format!("answer-outside-the-protocol ({m})"),
+                    Ok(Shake::Granted) => {
+                        // granted: the local connection must now be closed or reset (nothing is read from it: whatever comes is discarded)
+                        let end = by(deadline, async {
+                            let mut buf = vec![0u8; 4096];
+                            loop {
+                                match yio.read(&mut buf).await {
+                                    Ok(0) => return "eof".to_string(),
+                                    Ok(_) => {}
+                                    Err(e) => return format!("{:?}", e.kind()),
+                                }
+                            }
+                        })
+                        .await;
+                        match end {
+                            Ok(e) => y_state = format!("granted-then-closed ({})", if e == "eof" { "eof" } else { "reset" }),
+                            Err(_) => {
+                                y_state = "granted-then-left-open".into();
+                                y_hang = Some(format!("the {en} entry point granted the request, and then the local connection was neither closed nor reset"));
+                            }
+                        }
+                    }
+                }
+                drop(yio);
+            }
+        }
+        if let Some(what) = y_hang {
+            // differential control: does the host lead somewhere from this very process? Then an open connection is what a direct connection would be.
+            let direct = match std::str::from_utf8(host) {
+                Ok(h) if !h.is_empty() => matches!(tokio::time::timeout(Duration::from_secs(5), TcpStream::connect((h, ODD_PORT))).await, Ok(Ok(_))),
+                _ => false,
+            };
+            if direct {
+                y_state = format!("{y_state}; a direct connection to the host, port {ODD_PORT}, from this process is accepted: no verdict");
+            } else {
+                failures.push(Failure { key: format!("tcp.hang.{ODD_KEY}.{en}"), desc: format!("{lab}: local connection Y asked the {en} entry point for the target host {host_text}, port {ODD_PORT} (a direct connection to it from this process fails): {what} within {deadline_s} s: left hanging"), deadline: true });
+            }
+            // (the deadline has passed: nothing more can be judged)
+            break 'scenario;
+        }
+        *stats.odd_request_ends.entry(y_state.split(" (").next().unwrap_or("?").to_string()).or_insert(0) += 1;
+
+        // ---- X again: second halves and the close, every octet equal end to end
+        let x2 = match odd_exchange(&mut xc, &mut xt, &c_pay[c_cut..], &t_pay[t_cut..], deadline).await {
+            Ok(()) => odd_close(&mut xc, &mut xt, deadline).await,
+            Err(f) => Err(f),
+        };
+        match x2 {
+            Ok(()) => {
+                x_state = "completed";
+                stats.odd_bystander_completed += 1;
+                stats.conns_verified += 1;
+                stats.bytes_verified += (case.c2t + case.t2c) as u64;
+            }
+            Err(StepFail::Deadline) => {
+                x_state = "stalled";
+                failures.push(Failure { key: format!("tcp.hang.bystander.{ODD_KEY}.{en}"), desc: format!("{lab}: local connection X (to the ordinary target, open and working since before) did not carry the second halves of its payloads and its close within {deadline_s} s after local connection Y had asked the same {en} entry point for the target host {host_text}, port {ODD_PORT} (Y: {y_state})"), deadline: true });
+                break 'scenario;
+            }
+            Err(StepFail::Broken(m)) => {
+                x_state = "broken";
+                failures.push(Failure { key: format!("tcp.bystander-broken.{ODD_KEY}.{en}"), desc: format!("{lab}: local connection X (to the ordinary target, open and working: first halves of the payloads exchanged) was broken after local connection Y had asked the same {en} entry point for the target host {host_text}, port {ODD_PORT} (Y: {y_state}): {m}"), deadline: late(t0) });
+            }
+        }
+        drop((xc, xt));
+
+        // ---- Z: a new connection through the same entry point
+        let (zc_pay, zt_pay) = (payload(case.c2t, 1, 0), payload(case.t2c, 1, 1));
+        let z = match odd_open(entry, ep, &domain, &listener, &client_done, deadline).await {
+            Err(e) => Err(e),
+            Ok((mut zc, mut zt)) => match odd_exchange(&mut zc, &mut zt, &zc_pay, &zt_pay, deadline).await {
+                Err(f) => Err(("the payloads".into(), f)),
+                Ok(()) => odd_close(&mut zc, &mut zt, deadline).await.map_err(|f| ("the close".to_string(), f)),
+            },
+        };
+        match z {
+            Ok(()) => {
+                z_state = "completed";
+                stats.odd_later_connection_worked += 1;
+                stats.conns_verified += 1;
+                stats.bytes_verified += (case.c2t + case.t2c) as u64;
+            }
+            Err((what, f)) => {
+                z_state = if matches!(f, StepFail::Deadline) { "stalled" } else { "failed" };
+                failures.push(Failure { key: format!("tcp.later-connection-fails.{ODD_KEY}.{en}"), desc: format!("{lab}: after local connection Y had asked the {en} entry point for the target host {host_text}, port {ODD_PORT} (Y: {y_state}; X: {x_state}), a NEW local connection Z through the same entry point to the ordinary target (which listens) did not work: {}", ended(&what, &f)), deadline: matches!(f, StepFail::Deadline) || late(t0) });
+            }
+        }
+    }
+
+    // ---- subject status
+    let mut port_race = false;
+    if let Some(ex) = tunnel.client_exit().await {
+        if ex.addr_in_use {
+            port_race = true;
+        }
+        failures.push(Failure { key: if ex.panicked { "subject.client-panicked".into() } else { "subject.client-exited".into() }, desc: format!("{lab}: the penguin client ended while local connections were being served (X: {x_state}; Y: {y_state}; Z: {z_state}): {}", ex.text), deadline: false });
+    }
+    if tunnel.server_finished() {
+        failures.push(Failure { key: "subject.server-exited".into(), desc: format!("{lab}: run_listener ended"), deadline: false });
+    }
+    tunnel.stop();
+    drop(lease);
+    let mut keys: Vec<String> = failures.iter().map(|f| f.key.clone()).collect();
+    keys.sort();
+    keys.dedup();
+    // (how the odd request was turned down may differ between runs: only the verdicts belong to the deterministic summary)
+    let obs = json!({"bystander_x": x_state, "later_connection_z": z_state, "failure_keys": keys});
     TcpOutcome { obs, failures, port_race, stats, wall: t0.elapsed(), vacuous: None }
 }
 
